@@ -1,2 +1,3 @@
 pub mod textmut;
 pub mod layout;
+pub mod prog;
